@@ -20,6 +20,8 @@ type Solver struct {
 	cmd     *exec.Cmd
 	in      io.WriteCloser
 	out     *bufio.Reader
+	lines   chan string
+	Dead    bool
 	Stats   SolverStats
 	log     io.Writer // optional transcript
 	timeout int       // ms per query
@@ -56,6 +58,19 @@ func (s *Solver) start() error {
 		return err
 	}
 	s.cmd, s.in, s.out = cmd, in, bufio.NewReaderSize(out, 1<<16)
+	s.lines = make(chan string, 64)
+	go func(r *bufio.Reader, ch chan string) {
+		defer close(ch)
+		for {
+			line, err := r.ReadString('\n')
+			if line != "" {
+				ch <- line
+			}
+			if err != nil {
+				return
+			}
+		}
+	}(s.out, s.lines)
 	s.send(solverPrelude)
 	if strings.Contains(s.argv[0], "z3") {
 		s.send(fmt.Sprintf("(set-option :timeout %d)\n", s.timeout))
@@ -73,6 +88,9 @@ func (s *Solver) Close() {
 }
 
 func (s *Solver) send(str string) {
+	if s.Dead {
+		return
+	}
 	if s.log != nil {
 		io.WriteString(s.log, str)
 	}
@@ -91,10 +109,23 @@ func (s *Solver) readSexp() string {
 	var b strings.Builder
 	depth := 0
 	started := false
+	// watchdog: some queries (int->FP conversions) make z3 ignore its own :timeout
+	deadline := time.NewTimer(time.Duration(s.timeout)*time.Millisecond + 5*time.Second)
+	defer deadline.Stop()
 	for {
-		line, err := s.out.ReadString('\n')
-		if err != nil && line == "" {
-			panic(unsupported("solver died: %v", err))
+		var line string
+		select {
+		case l, ok := <-s.lines:
+			if !ok {
+				s.Dead = true
+				panic(unsupported("solver died"))
+			}
+			line = l
+		case <-deadline.C:
+			s.Dead = true
+			s.Stats.Unknown++
+			s.cmd.Process.Kill()
+			panic(unsupported("solver did not answer within the query timeout (killed)"))
 		}
 		b.WriteString(line)
 		for _, c := range line {
